@@ -251,3 +251,8 @@ package l1infotreesync
 //@   requires p != nil && p.l1InfoTree != nil && p.l1InfoTree.Tree != nil && len(p.l1InfoTree.Tree.zeroHashes) == 33
 //@   assert call:GetRootByIndex arg0 == p.l1InfoTree.Tree && arg2 == index
 //@   assert call:GetProof arg0 == p.l1InfoTree.Tree && arg2 == index
+
+// schema clauses the reorg semantics rest on (C04, C07; A5), pinned in the embedded migration files
+//@ filepin C04,C07 migrations/l1infotreesync0001.sql "CREATE TABLE l1info_leaf ( block_num INTEGER NOT NULL REFERENCES block(num) ON DELETE CASCADE,"
+//@ filepin C04,C07 migrations/l1infotreesync0001.sql "CREATE TABLE verify_batches ( block_num INTEGER NOT NULL REFERENCES block(num) ON DELETE CASCADE,"
+//@ filepin C04,C07 migrations/l1infotreesync0002.sql "single_row_id INTEGER check(single_row_id=1) NOT NULL DEFAULT 1, block_num INTEGER NOT NULL REFERENCES block(num) ON DELETE CASCADE,"
